@@ -116,6 +116,25 @@ def make_cases(seed, tier):
     return cases
 
 
+# alg-yescrypt-opt.c has three bodies selected by the compiler's target: SSE2 (every default x86-64 build),
+# AVX (distributions building for x86-64-v3) and the portable C one (every other architecture)
+ISA = {"avx2": "-mavx2", "portable": "-mno-sse2 -mno-sse"}
+ISA_EXE = {}
+
+
+def isa_workers():
+    out = {}
+    for k, exe in ISA_EXE.items():
+        out[k] = pool.worker(exe)
+    return out
+
+
+def build_isa(tree):
+    for k, fl in ISA.items():
+        o = tree.variant_object("opt", "alg-yescrypt-opt.c", "isa-" + k, None, fl)
+        ISA_EXE[k] = tree.program("opt", "vw.c", name="vw-opt-" + k, replace={"alg-yescrypt-opt.o": o})
+
+
 def do_chunk(chunk):
     acc = common.Acc()
     workers = {"opt": rt.vw("opt"), "asan": rt.vw("asan"), "sys": rt.vw("sys")}
@@ -129,6 +148,13 @@ def do_chunk(chunk):
             yidx[i] = len(ylines)
             ylines.append(rt.crypt_line("crypt_rn", 0, p, b"$y$" + s[4:]))
     yrows = rt.run_resilient(workers["sys"], setup, ylines, timeout=300) if ylines else []
+    # the other instruction-set bodies of the yescrypt core
+    fam = [i for i, c in enumerate(chunk) if c[0] in ("yescrypt", "gost_yescrypt", "scrypt")]
+    isa_rows = {}
+    if fam and ISA_EXE:
+        for k, w in isa_workers().items():
+            rr = rt.run_resilient(w, setup, [lines[i] for i in fam], timeout=300)
+            isa_rows[k] = dict(zip(fam, rr))
     for i, (m, cls, p, s, sec) in enumerate(chunk):
         acc.count("evaluations")
         ro, ra, rs = rows["opt"][i], rows["asan"][i], rows["sys"][i]
@@ -149,6 +175,23 @@ def do_chunk(chunk):
         if ho != ha:
             viol("opt-vs-asan", "-O2 build gives %r, ASan build gives %r" % (ho, ha))
             continue
+        for k, rr in isa_rows.items():
+            if i not in rr:
+                continue
+            r2 = rr[i]
+            if isinstance(r2, Death):
+                if r2.kind() == "signal:SIGILL":
+                    acc.inconc("this CPU cannot run the %s build" % k)
+                else:
+                    viol("isa-" + k + "-died", "the %s build of alg-yescrypt-opt.c died: %s/%s" % (k, r2.kind(), r2.frame()))
+                continue
+            if not isinstance(r2, dict):
+                acc.inconc("timeout %s %s" % (k, m))
+                continue
+            acc.count("isa/" + k)
+            acc.cls(("isa", k, m, ho is not None))
+            if rt.hash_of(r2) != ho:
+                viol("isa-" + k, "the SSE2 build gives %r, the %s build (%s) gives %r" % (ho, k, ISA[k], rt.hash_of(r2)))
         rm = gen.result_method(s, len(p)) or m
         want = None
         if sec <= 0.6:
@@ -220,7 +263,8 @@ def run(tier):
     bad = ref.selftest()
     if bad:
         run_.harness_error("reference self-test failed: %s" % bad)
-    rt.prepare(["opt", "asan"], sys_worker=True)
+    tree = rt.prepare(["opt", "asan"], sys_worker=True)
+    build_isa(tree)
     cases = make_cases(run_.seed, tier)
     for acc in pool.pmap(do_chunk, pool.chunks(cases, 12)):
         run_.merge(acc)
@@ -242,7 +286,9 @@ def run(tier):
         "per_method_model": {m: int(a.n.get("mod/" + m, 0)) for m in gen.METHODS},
         "model_disagrees_with_tree_and_release": int(a.n.get("model_disagrees_with_both", 0)),
         "compared_with_pure_python_eksblowfish": int(a.n.get("compared_with_pure_bcrypt", 0)),
-        "flavours": ["opt (-O2)", "asan", "sys (libxcrypt 4.4.33 /lib/x86_64-linux-gnu/libcrypt.so.1)"],
+        "yescrypt_core_other_instruction_sets": {k: int(a.n.get("isa/" + k, 0)) for k in ISA},
+        "flavours": ["opt (-O2)", "asan", "sys (libxcrypt 4.4.33 /lib/x86_64-linux-gnu/libcrypt.so.1)",
+                     "opt with alg-yescrypt-opt.c built -mavx2", "opt with alg-yescrypt-opt.c built -mno-sse2 (portable C body)"],
     }
     req = {"release/" + m: a.n.get("rel/" + m, 0) for m in gen.METHODS}
     req.update({"model/" + m: a.n.get("mod/" + m, 0) for m in gen.METHODS})
